@@ -1,7 +1,7 @@
 \* exhaustive (quick tier): both APIs, seekable or not, up to 2 tracks, up to 2 packets of sizes 1, 255, 255*255, 255*255+1
 \* (every length around the boundaries is covered by the assumption LacingHolds of Ogg_MC.tla)
 CONSTANTS
-  Impl = "intended"
+  Impl = "current"
   Apis = {"New", "NewWith", "Writer", "WriterSeek"}
   MaxTracks = 2
   MaxPackets = 2
